@@ -132,9 +132,16 @@ def main(ctx):
 
     # exhaustive BFS of ancestor-closed slices
     sl_jobs = []
-    for key in keys[:slice_sources]:
+    # the first fixtures plus every generated source (their graphs are small and exercise the dynamic parts)
+    model_keys = keys[:slice_sources] + [k for k in keys[slice_sources:] if "/minifonts/" in k[0]]
+    for key in model_keys:
         gj, gpath = graphs_by_src[key]
+        per_source = 0
         for n, (c, real, name) in enumerate(graphs.slices(gj, slice_max)):
+            if "/minifonts/" in key[0]:
+                per_source += 1
+                if per_source > (2 if quick else 6):
+                    break
             if real < 3:
                 continue
             sg = graphs.slice_graph(gj, c)
@@ -143,7 +150,8 @@ def main(ctx):
             sl_jobs.append((key[0], name, real, sp))
     # biggest first, bounded number
     sl_jobs.sort(key=lambda j: -j[2])
-    sl_jobs = sl_jobs[: (6 if quick else 40)]
+    fixture_jobs = [j for j in sl_jobs if "/minifonts/" not in j[0]][: (6 if quick else 40)]
+    sl_jobs = fixture_jobs + [j for j in sl_jobs if "/minifonts/" in j[0]]
     common.log("exhaustive model checking of %d graph slices" % len(sl_jobs))
 
     def bfs(job):
@@ -166,7 +174,7 @@ def main(ctx):
 
     # simulation of whole graphs
     common.log("simulating %d whole graphs" % min(sim_sources, len(keys)))
-    for key in keys[:sim_sources]:
+    for key in keys[:sim_sources] + [k for k in keys[sim_sources:] if "own-notdef" in k[0] or "varying-components" in k[0]]:
         gj, gpath = graphs_by_src[key]
         r = common.run_tlc(ctx, "Workload", "MCWorkloadSim.cfg", workers=8, timeout=600, xmx="4g",
                            env={"GRAPH": gpath}, simulate=sim_n, depth=4000, tag="sim")
